@@ -119,23 +119,23 @@ def responseVal (apps : List Val) : Val :=
     (s "protocol", .str (s "3.0")),
     (s "server", .str (s "prod"))])]
 
-/-- `serde_json::to_vec` of a value (the documents built here contain u64 integers only). -/
-def toJson : Val → Json
-  | .null => .null
-  | .bool b => .bool b
-  | .num (.uint n) => .int n
-  | .num (.other _) => .null
-  | .str b => .str b
-  | .arr xs => .arr (xs.attach.map fun ⟨x, _⟩ => toJson x)
-  | .obj kvs => .obj (kvs.attach.map fun ⟨kv, _⟩ => (kv.1, toJson kv.2))
-termination_by v => sizeOf v
-decreasing_by
-  all_goals simp_wf
-  · have := List.sizeOf_lt_of_mem ‹_›; omega
-  · rename_i h
-    have h1 := List.sizeOf_lt_of_mem h
-    have h2 : sizeOf kv.2 < sizeOf kv := by cases kv; simp; omega
-    omega
+mutual
+  /-- `serde_json::to_vec` of a value (the documents built here contain u64 integers only). -/
+  def toJson : Val → Json
+    | .null => .null
+    | .bool b => .bool b
+    | .num (.uint n) => .int n
+    | .num (.other _) => .null
+    | .str b => .str b
+    | .arr xs => .arr (toJsons xs)
+    | .obj kvs => .obj (toJsonMembers kvs)
+  def toJsons : List Val → List Json
+    | [] => []
+    | x :: xs => toJson x :: toJsons xs
+  def toJsonMembers : List (Bytes × Val) → List (Bytes × Json)
+    | [] => []
+    | (k, v) :: rest => (k, toJson v) :: toJsonMembers rest
+end
 
 def render (v : Val) : Bytes := Json.render (toJson v)
 
